@@ -75,7 +75,7 @@ type SideCar struct {
 // ------------------------------------------------------------------------------ case descriptions (replayable)
 
 type Desc struct {
-	Kind  string     `json:"kind"` // layout | mac | ip | cid | vlan | alg | lpm | hash
+	Kind  string     `json:"kind"` // layout | mac | ip | cid | cidat | vlan | alg | lpm | hash | val | port
 	Pair  string     `json:"pair,omitempty"`
 	Field string     `json:"field,omitempty"`
 	Vals  [][][]uint64 `json:"vals,omitempty"` // layout: value tuples for OPut
@@ -94,6 +94,8 @@ type Desc struct {
 	Src   []byte     `json:"src,omitempty"`
 	Pos   int        `json:"pos,omitempty"`    // cidat: options offset of option 82 (3 or 12..19)
 	Lay   int        `json:"lay,omitempty"`    // cidat: 0 = circuit-id + remote-id sub-options, 1 = circuit-id only
+	Fam   int        `json:"fam,omitempty"`    // val: 1 = IPv6 source binding, 2 = DHCP server MAC
+	Val   []byte     `json:"val,omitempty"`    // val: the wire bytes of the value the API is called with
 }
 
 // ------------------------------------------------------------------------------ environment
@@ -777,6 +779,62 @@ func dhcpFrameOpts(mac, opts []byte, tags [][2]uint16) []byte {
 
 const maxU64 = ^uint64(0)
 
+func normName(n string) string { return strings.ToLower(strings.ReplaceAll(n, "_", "")) }
+
+// member: byte range of a C member inside a key / value, from the REGENERATED layout (so a moved or retyped member
+// is still read where the C declaration now has it)
+func (e *env) member(obj, mp, role, cname string) (off, size int) {
+	for _, p := range e.order {
+		if p.Object == obj && p.Map == mp && p.Role == role {
+			for _, f := range p.C {
+				if normName(f.Name) == normName(cname) {
+					return f.Off, f.Width * f.Count
+				}
+			}
+		}
+	}
+	e.errs = append(e.errs, fmt.Sprintf("regenerated layout has no member %s in %s/%s/%s", cname, obj, mp, role))
+	return 0, 0
+}
+
+func cut(b []byte, off, size int) []byte {
+	if off+size > len(b) {
+		return nil
+	}
+	return b[off : off+size]
+}
+
+func ipv6(src, dst []byte, nh byte, payload []byte) []byte {
+	h := []byte{0x60, 0, 0, 0, byte(len(payload) >> 8), byte(len(payload)), nh, 64}
+	h = append(h, src...)
+	h = append(h, dst...)
+	return append(h, payload...)
+}
+
+// replyOption: value of option code in the options area of a fast-path reply (frame without VLAN tags)
+func replyOption(out []byte, code byte) []byte {
+	i := 14 + 20 + 8 + 240
+	for i+1 < len(out) {
+		c := out[i]
+		if c == 255 {
+			return nil
+		}
+		if c == 0 {
+			i++
+			continue
+		}
+		l := int(out[i+1])
+		if i+2+l > len(out) {
+			return nil
+		}
+		if c == code {
+			return out[i+2 : i+2+l]
+		}
+		i += 2 + l
+	}
+	return nil
+}
+
 // soft records an error of the real code (the observation then shows a miss) instead of aborting the run
 func (e *env) soft(err error) {
 	if err != nil {
@@ -903,6 +961,32 @@ func (e *env) keyCase(d Desc) vh.Case {
 			if bytes.Equal(d.IP, []byte{0, 0, 0, 0}) { // 0 means "not configured": the program falls back to the pool gateway
 				hit = true
 			}
+		case 7, 8: // pkg/dhcp/pool.go: IPPool.Gateway / DNSPrimary / DNSSecondary = ebpf.IPToUint32(...) -> router / DNS option of the reply
+			e.dhcpReset()
+			mac := []byte{2, 0, 0, 0, 0, 0x11}
+			pool := &bngebpf.IPPool{PrefixLen: 24, LeaseTime: 3600, Gateway: bngebpf.IPToUint32(net.IPv4(10, 0, 0, 10))}
+			memb, code := "gateway", byte(3)
+			if d.Site == 7 {
+				pool.Gateway = bngebpf.IPToUint32(ip)
+			} else {
+				pool.DNSPrimary, pool.DNSSecondary = bngebpf.IPToUint32(ip), bngebpf.IPToUint32(ip)
+				memb, code = "dns_primary", 6
+			}
+			e.soft(e.loader.AddPool(1, pool))
+			e.soft(e.loader.AddSubscriber(bngebpf.MACToUint64(mac), &bngebpf.PoolAssignment{PoolID: 1, LeaseExpiry: maxU64}))
+			raw, _ := e.m("dhcp_fastpath", "ip_pools").LookupBytes(uint32(1))
+			off, sz := e.member("dhcp_fastpath", "ip_pools", "value", memb)
+			gob = cut(raw, off, sz)
+			v, out := e.runXDP(dhcpFrame(mac, nil, nil))
+			want := append([]byte{}, d.IP...)
+			if d.Site == 8 {
+				want = append(want, d.IP...)
+				o2, s2 := e.member("dhcp_fastpath", "ip_pools", "value", "dns_secondary")
+				if !bytes.Equal(cut(raw, o2, s2), gob) {
+					e.errs = append(e.errs, "dns_primary and dns_secondary hold different bytes for the same address")
+				}
+			}
+			hit = v == bpfrun.XDPTx && bytes.Equal(replyOption(out, code), want)
 		case 2, 6: // nat.AllocateNAT: key ipToKey(private) ; value PortBlock.PublicIP = ipToKey(public)
 			e.newNat()
 			for _, n := range []string{"subscriber_nat", "nat_sessions", "nat_reverse", "eim_table", "hairpin_ips"} {
@@ -955,6 +1039,72 @@ func (e *env) keyCase(d Desc) vh.Case {
 		}
 		o = obs{fmt.Sprintf("OIp %d %s", d.Site, nl(bl(d.IP))), nll([][]uint64{bl(gob), {b2n(hit)}})}
 		tags = append(tags, fmt.Sprintf("site:%d", d.Site), fmt.Sprintf("palindrome:%v", d.IP[0] == d.IP[3] && d.IP[1] == d.IP[2]))
+	case "val":
+		var memb []byte
+		hit := false
+		switch d.Fam {
+		case 1: // antispoof.AddBindingV6(mac, ip6): value member ipv6_addr ; antispoof_ingress compares it with ip6->saddr
+			e.objs["antispoof"].Clear("subscriber_bindings")
+			e.soft(e.asm.SetMode(antispoof.ModeStrict))
+			mac := net.HardwareAddr{2, 0, 0, 0, 0, 0x66}
+			if d.Site == 1 { // an IPv4 binding exists already (the usual order: DHCPv4 lease first)
+				e.soft(e.asm.AddBinding(mac, net.IPv4(10, 7, 7, 10)))
+			}
+			e.soft(e.asm.AddBindingV6(mac, net.IP(d.Val)))
+			kv, _ := e.objs["antispoof"].Dump("subscriber_bindings")
+			off, sz := e.member("antispoof", "subscriber_bindings", "value", "ipv6_addr")
+			if len(kv) == 1 {
+				memb = cut(kv[0].Value, off, sz)
+			}
+			dst := []byte{0x20, 0x01, 0x48, 0x60, 0x48, 0x60, 0, 0, 0, 0, 0, 0, 0, 0, 0x88, 0x88}
+			fr := append(ethHdr([]byte{2, 0, 0, 0, 0, 9}, mac, nil, 0x86dd), ipv6(d.Val, dst, 17, udp(1000, 53, make([]byte, 8)))...)
+			v, _ := e.runTC("antispoof", "antispoof_ingress", fr)
+			hit = v == bpfrun.TCActOK
+			// sanity of the observation itself: another source address from the same MAC is dropped
+			other := append([]byte{}, d.Val...)
+			other[15] ^= 0x5a
+			other[2] ^= 0xa5
+			fr2 := append(ethHdr([]byte{2, 0, 0, 0, 0, 9}, mac, nil, 0x86dd), ipv6(other, dst, 17, udp(1000, 53, make([]byte, 8)))...)
+			if v2, _ := e.runTC("antispoof", "antispoof_ingress", fr2); v2 != bpfrun.TCActShot {
+				e.errs = append(e.errs, "antispoof_ingress did not drop an unbound IPv6 source in strict mode: the IPv6 observation does not discriminate")
+			}
+		case 2: // Loader.SetServerConfig(mac, ...): value member server_mac ; the reply's Ethernet source
+			e.dhcpReset()
+			cl := []byte{2, 0, 0, 0, 0, 0x12}
+			e.soft(e.loader.SetServerConfig(net.HardwareAddr(d.Val), net.IPv4(0, 0, 0, 0), 1))
+			e.soft(e.loader.AddSubscriber(bngebpf.MACToUint64(cl), &bngebpf.PoolAssignment{PoolID: 1, LeaseExpiry: maxU64}))
+			raw, _ := e.m("dhcp_fastpath", "server_config").LookupBytes(uint32(0))
+			off, sz := e.member("dhcp_fastpath", "server_config", "value", "server_mac")
+			memb = cut(raw, off, sz)
+			v, out := e.runXDP(dhcpFrame(cl, nil, nil))
+			hit = v == bpfrun.XDPTx && len(out) >= 12 && len(d.Val) >= 6 && bytes.Equal(out[6:12], d.Val[:6])
+		}
+		o = obs{fmt.Sprintf("OVal %d %s", d.Fam, nl(bl(d.Val))), nll([][]uint64{bl(memb), {b2n(hit)}})}
+		tags = append(tags, fmt.Sprintf("fam:%d", d.Fam), fmt.Sprintf("len:%d", len(d.Val)))
+	case "port": // nat_key.src_port / dst_port: the kernel program creates the session, nat.LookupSession looks it up by NUMBER
+		e.newNat()
+		for _, n := range []string{"subscriber_nat", "nat_sessions", "nat_reverse", "eim_table", "hairpin_ips"} {
+			e.objs["nat44"].Clear(n)
+		}
+		priv, dst := net.IPv4(10, 9, 9, 10).To4(), net.IPv4(8, 8, 8, 8).To4()
+		e.soft(e.natm.AddPublicIP(net.IPv4(203, 0, 113, 77)))
+		_, aerr := e.natm.AllocateNAT(priv)
+		e.soft(aerr)
+		sport, dport, memb := d.Port, uint16(0x3535), "src_port"
+		if d.Site == 2 {
+			sport, dport, memb = 0x3535, d.Port, "dst_port"
+		}
+		fr := append(ethHdr([]byte{2, 0, 0, 0, 0, 9}, []byte{2, 0, 0, 0, 0, 8}, nil, 0x0800), ipv4(priv, dst, 17, udp(sport, dport, make([]byte, 8)))...)
+		e.runTC("nat44", "nat44_egress", fr)
+		ss, _ := e.objs["nat44"].Dump("nat_sessions")
+		var kb []byte
+		if len(ss) == 1 {
+			off, sz := e.member("nat44", "nat_sessions", "key", memb)
+			kb = cut(ss[0].Key, off, sz)
+		}
+		_, lerr := e.natm.LookupSession(priv, dst, sport, dport, 17)
+		o = obs{fmt.Sprintf("OPort %d %d", d.Site, d.Port), nll([][]uint64{bl(kb), {b2n(len(ss) == 1 && lerr == nil)}})}
+		tags = append(tags, fmt.Sprintf("site:%d", d.Site), fmt.Sprintf("palindrome:%v", d.Port>>8 == d.Port&0xff))
 	case "cid":
 		e.dhcpReset()
 		e.soft(e.loader.AddCircuitIDSubscriber(d.Cid, &bngebpf.PoolAssignment{PoolID: 1, LeaseExpiry: maxU64}))
@@ -1122,7 +1272,7 @@ func genKeys(r *vh.Rng, thorough bool) []Desc {
 		privs = append(privs, []byte{10, byte(r.U64()), byte(r.U64()), byte(r.U64())})
 		pubs = append(pubs, []byte{byte(r.U64())%200 + 11, byte(r.U64()), byte(r.U64()), byte(r.U64())})
 	}
-	for _, site := range []int{1, 3, 4, 5, 6} {
+	for _, site := range []int{1, 3, 4, 5, 6, 7, 8} {
 		for _, ip := range append(append([][]byte{}, pal...), pubs...) {
 			ds = append(ds, Desc{Kind: "ip", Site: site, IP: ip})
 		}
@@ -1132,6 +1282,45 @@ func genKeys(r *vh.Rng, thorough bool) []Desc {
 	}
 	for _, ip := range append(append([][]byte{}, ppal...), privs...) { // site 2: the program only NATs private sources
 		ds = append(ds, Desc{Kind: "ip", Site: 2, IP: ip})
+	}
+	// meaning-level value members: IPv6 source bindings (with / without an IPv4 binding before), server MACs
+	v6 := [][]byte{
+		{0x20, 0x01, 0x0d, 0xb8, 0, 1, 0, 2, 0xa1, 0xb2, 0xc3, 0xd4, 0xe5, 0xf6, 7, 8},
+		{0xfe, 0x80, 0, 0, 0, 0, 0, 0, 2, 0, 0, 0xff, 0xfe, 0, 0, 0x66},
+		{0, 0, 0, 0, 0, 0, 0, 0, 0, 0, 0, 0, 0, 0, 0, 1},
+		{0, 0, 0, 0, 0, 0, 0, 0, 0, 0, 0xff, 0xff, 10, 1, 2, 3},
+		{0x20, 0x01, 0x01, 0x20, 0xaa, 0xbb, 0xbb, 0xaa, 1, 2, 2, 1, 9, 9, 9, 9}, // every 32-bit group a palindrome
+		{1, 2, 3, 4, 5, 6, 7, 8, 9, 10, 11, 12, 13, 14, 15, 16},
+		{0xff, 0xff, 0xff, 0xff, 0xff, 0xff, 0xff, 0xff, 0xff, 0xff, 0xff, 0xff, 0xff, 0xff, 0xff, 0xfe},
+	}
+	for i := 0; i < 6*scale; i++ {
+		v6 = append(v6, r.Bytes(16))
+	}
+	for i := 0; i < 16; i++ { // one distinguished byte in every position
+		a := make([]byte, 16)
+		a[0], a[i] = 0x20, 0x80|byte(i+1)
+		v6 = append(v6, a)
+	}
+	for i, a := range v6 {
+		ds = append(ds, Desc{Kind: "val", Fam: 1, Site: i % 2, Val: a})
+	}
+	for _, m := range [][]byte{{2, 0, 0, 0, 0, 1}, {0xff, 0xfe, 0xfd, 0xfc, 0xfb, 0xfa}, {0, 0x11, 0x22, 0x33, 0x44, 0x55}, {0x80, 0, 0, 0, 0, 0x80},
+		{2, 1, 2, 3, 4, 5, 6, 7}, {1, 2, 3, 4, 5, 6, 7, 8, 9, 10, 11, 12, 13, 14, 15, 16}} {
+		ds = append(ds, Desc{Kind: "val", Fam: 2, Val: m})
+	}
+	for i := 0; i < 4*scale; i++ {
+		ds = append(ds, Desc{Kind: "val", Fam: 2, Val: r.Bytes(6 + r.Intn(3))})
+	}
+	// 16-bit ports in the nat_sessions key: byte palindromes (guarded) and general ports
+	for _, site := range []int{1, 2} {
+		for _, p := range []uint16{53, 80, 443, 1024, 4000, 0x0101, 0x3535, 0x5000, 0x0050, 0xffff, 0xff00, 0x00ff, 0x1f1f} {
+			ds = append(ds, Desc{Kind: "port", Site: site, Port: p})
+		}
+		for i := 0; i < 3*scale; i++ {
+			ds = append(ds, Desc{Kind: "port", Site: site, Port: uint16(r.Intn(65535) + 1)})
+			b := uint16(r.Intn(255) + 1)
+			ds = append(ds, Desc{Kind: "port", Site: site, Port: b<<8 | b})
+		}
 	}
 	// circuit-ids: every length 0..64 x every options offset the program recognises (3, 12..19) x sub-option layout
 	positions := []int{3, 12, 13, 14, 15, 16, 17, 18, 19}
